@@ -120,13 +120,38 @@ Theorem C11_queued_delivered :
 Proof. exact queued_delivered. Qed.
 Print Assumptions C11_queued_delivered.
 
+(* locks.  No public or internal Channel / Transport function reaches a send primitive while it holds
+   self.lock (every critical section of both classes, from the AST) ... *)
+Theorem C11_no_send_under_lock : locked_send_count = 0.
+Proof. exact no_send_under_lock. Qed.
+Print Assumptions C11_no_send_under_lock.
+
+(* ... so, for every interleaving, no user thread parks at the gate with the lock and the transport thread
+   never waits on a lock inside a handler *)
+Theorem C11_tt_never_waits_on_lock :
+  forall keep evs, ttl (run (init_st keep) evs) = false /\ lk (run (init_st keep) evs) = false.
+Proof. exact tt_never_waits_on_lock. Qed.
+Print Assumptions C11_tt_never_waits_on_lock.
+
+(* what that fact protects against (the LTS with a locked gated send, step_gen true): a user thread does
+   shutdown / close / send under the lock during own re-key, a crossing WINDOW_ADJUST (handler needs the lock,
+   from the generated table) blocks the transport thread behind it, and from then on nothing is ever emitted
+   and the flag is never set: the exchange stalls with only the KEXINIT sent *)
+Theorem C11_locked_send_would_deadlock :
+  let s := run_gen true (init_st false) [UserRekey; UserSendLocked 96; Recv 93 false] in
+  needs_lock 93 = true /\ ttl s = true /\ map fst (out s) = [20] /\
+  forall evs, out (run_gen true s evs) = out s /\ cts (run_gen true s evs) = false.
+Proof. exact locked_send_would_deadlock. Qed.
+Print Assumptions C11_locked_send_would_deadlock.
+
 (* the shape of the gate, of the flag's writers and of the callers of the ungated primitive, as found in
    the source by gen/c11.py (these justify the step function of the model) *)
 Theorem C11_shape_facts :
   gate_waits = true /\ kexinit_clears_first = true /\ negotiate_clears_first = true /\
   newkeys_sets = true /\ flag_set_only_in_newkeys = true /\ send_message_is_packetizer = true /\
   public_ungated_count = 0 /\ kex_gate_uses = 0 /\ MSG_KEXINIT = 20 /\ MSG_NEWKEYS = 21 /\
-  HIGHEST_USERAUTH_MESSAGE_ID < 80.
+  HIGHEST_USERAUTH_MESSAGE_ID < 80 /\ MSG_GLOBAL_REQUEST = 80 /\ MSG_CHANNEL_OPEN = 90 /\
+  MSG_CHANNEL_DATA = 94 /\ MSG_CHANNEL_CLOSE = 97 /\ MSG_CHANNEL_REQUEST = 98.
 Proof. exact shape_facts. Qed.
 Print Assumptions C11_shape_facts.
 
